@@ -519,16 +519,16 @@ func (pd *perBitData) parseSequenceOf(sizeExtensed bool, params fieldParameters,
 	} else if sizeRange == 1 {
 		numElements += uint64(lb)
 	} else {
-		if err := pd.parseAlignBits(); err != nil {
+		// X.691 11.9.3.5-7: general length determinant (one octet up to 127, two octets up to 16383)
+		repeat := false
+		numElementsTmp, err := pd.parseLength(-1, &repeat)
+		if err != nil {
 			return sliceContent, err
 		}
-		if pd.byteOffset >= uint64(len(pd.bytes)) {
-			err := fmt.Errorf("per data out of range")
-			return sliceContent, err
+		if repeat {
+			return sliceContent, fmt.Errorf("fragmented SEQUENCE OF length is not supported")
 		}
-		numElements = uint64(pd.bytes[pd.byteOffset])
-		pd.byteOffset++
-		perTrace(1, perBitLog(8, pd.byteOffset, pd.bitsOffset, numElements))
+		numElements = numElementsTmp
 	}
 	perTrace(2, fmt.Sprintf("Decoding  \"SEQUENCE OF\" struct %s with len(%d)", sliceType.Elem().Name(), numElements))
 	params.sizeExtensible = false
